@@ -6,7 +6,7 @@ ID = "C16"
 LEVEL = "proof"
 PROPS_FILE = "C16.v"
 RUN_MODULE = "RunC16"
-TRANSLATOR_UNITS = []
+TRANSLATOR_UNITS = ["crc"]
 RULE = ("every catalogue name (live catalog.py) x data widths {1,3,4,8,16,crc_width,crc_width/2,...} with messages of 0-12 "
         "random words: Parameters.compute vs Crc.compute and vs the Williams spec run directly; residue(), _matrices(), "
         "_reflect; exhaustive parameter sets for crc_width<=3 (all polynomials, inits, flags) x data widths 1..3; seeded random "
